@@ -69,3 +69,46 @@ Section Rows.
     (4 * uh - u2h) / 3 - u = (4 * dh - d2h) / 3.
   Proof. intros -> ->. field. Qed.
 End Rows.
+
+(* ================================================================== *)
+(* index safety: every column of a take row is a node of the grid      *)
+(* ================================================================== *)
+Section InBounds.
+  Local Open Scope R_scope.
+  Variable nr nth : Z.
+  Variable h k : Z -> R.
+  Variable R0 : R.
+  Variable arr att art det : Z -> Z -> R.
+  Variable beta : Z -> R.
+  Variable dirbc : bool.
+  Variable Mc : Z.
+  Hypothesis Hnr : (2 <= nr)%Z.
+  Hypothesis HMc : (1 <= Mc)%Z.
+  Hypothesis Hnth : nth = (2 * Mc)%Z.
+
+  Lemma wt_in_range x : (- nth <= x < 2 * nth)%Z -> (0 <= wt nth x < nth)%Z.
+  Proof. intros Hx. unfold wt, wrap1. rewrite Hnth in *. zb; lia. Qed.
+  Lemma across_in_range j : (0 <= j < nth)%Z -> (0 <= across nth j < nth)%Z.
+  Proof.
+    intros Hj. unfold across. apply wt_in_range. rewrite Hnth in *.
+    rewrite quot2_even by lia. lia.
+  Qed.
+
+  Theorem take_columns_in_grid i j q : (0 <= i < nr)%Z -> (0 <= j < nth)%Z ->
+    In q (map fst (@A_take_row Rsc nr nth h k R0 arr att art det beta dirbc i j)) ->
+    (0 <= fst q < nr)%Z /\ (0 <= snd q < nth)%Z.
+  Proof.
+    intros Hi Hj.
+    pose proof (wt_in_range (j - 1) ltac:(lia)) as Rm. pose proof (wt_in_range (j + 1) ltac:(lia)) as Rp.
+    pose proof (across_in_range j Hj) as Ra.
+    unfold A_take_row. fold (wt nth (j - 1)) (wt nth (j + 1)).
+    destruct ((0 <? i)%Z && (i <? nr - 1)%Z)%bool eqn:E.
+    - apply andb_prop in E. destruct E as [E1 E2]. apply Z.ltb_lt in E1. apply Z.ltb_lt in E2.
+      cbn [map fst In]. intros H. repeat (destruct H as [<-|H]; [cbn [fst snd]; lia|]). contradiction.
+    - destruct (i =? 0)%Z eqn:E0.
+      + apply Z.eqb_eq in E0. subst i. destruct dirbc.
+        * cbn [map fst In]. intros [<-|[]]. cbn [fst snd]. lia.
+        * cbn [map fst In]. intros H. repeat (destruct H as [<-|H]; [cbn [fst snd]; lia|]). contradiction.
+      + cbn [map fst In]. intros [<-|[]]. cbn [fst snd]. lia.
+  Qed.
+End InBounds.
